@@ -216,7 +216,8 @@ func (s *vSession) Status(mailbox string, options *imap.StatusOptions) (*imap.St
 	if err := s.rec(vCall{op: "Status", s1: mailbox, statOpts: options}); err != nil {
 		return nil, err
 	}
-	return &imap.StatusData{Mailbox: mailbox}, nil
+	n, sz, lim := uint32(3), int64(42), uint32(1000)
+	return &imap.StatusData{Mailbox: mailbox, NumMessages: &n, UIDNext: 10, UIDValidity: 1, NumUnseen: &n, NumDeleted: &n, Size: &sz, AppendLimit: &lim, DeletedStorage: &sz}, nil
 }
 func (s *vSession) Append(mailbox string, r imap.LiteralReader, options *imap.AppendOptions) (*imap.AppendData, error) {
 	var lit []byte
